@@ -87,6 +87,15 @@ Theorem duplicates_counted :
 Proof. exact refcount_is_multiplicity. Qed.
 Print Assumptions duplicates_counted.
 
+(* The hypothesis is met by every DAG: if the heap has a rank function (links go strictly up) that also
+   puts the objects written into the slot above its owner - i.e. the heap is a DAG before and after the
+   change -, the change is edge-acyclic for every set of registrations and expressions. *)
+Theorem dag_heaps_are_edge_acyclic :
+  forall t rank h rs o fo news,
+    fo <> TA -> ranked rank h -> (forall y, In y news -> rank o < rank y) -> edge_acyclic t h rs o fo news.
+Proof. exact ranked_edge_acyclic_lemma. Qed.
+Print Assumptions dag_heaps_are_edge_acyclic.
+
 (* The substitution theorem behind the step case (kept visible). *)
 Theorem expected_substitution :
   forall t h k o fo news g x, acyc_on t h o fo news g x ->
